@@ -417,6 +417,16 @@ func (g *gen) randomCase() *Case {
 	switch {
 	case k < 14:
 		return &Case{Kind: "path", Q: []string{p}, Pre: pre, Input: input, Op: "path"}
+	case k < 19:
+		b := g.nestedBody(1 + r.Intn(3))
+		q := p
+		if r.Chance(1, 2) {
+			q = g.pick(".[]", ".[]?", "(.[]? | select(type == \"array\" or type == \"object\"))", ".[]?[]?", ".a?", "..")
+		}
+		c := nestedCase("modify-nested", q, b, input)
+		c.Q[0], c.Q[1] = pre+q+" |= ("+b.impl+")", defs+pre+"_mref("+q+"; ("+b.ref+"))"
+		c.Pre = pre
+		return c
 	case k < 52:
 		f := bodies[r.Intn(len(bodies))]
 		c := eqCase("modify", pre, p+" |= ("+f.src+")", "_mref("+p+"; ("+f.src+"))", input)
@@ -685,5 +695,163 @@ func fracCases() []*Case {
 			}
 		}
 	}
+	return cs
+}
+
+// ---- update bodies that are themselves updates / deletions (nested to depth 2-3) ----
+// impl: the body as written (`q |= f`, del(q), map_values(f)); ref: the same body with every inner update
+// replaced by its defining reduction (_mref / _dref), so that the reference contains no compiled update at all
+
+type nbody struct{ impl, ref string }
+
+func (g *gen) nestedBody(d int) nbody {
+	r := g.r
+	conds := []string{"type == \"number\" and . % 2 == 0", "type == \"number\" and . > 1", ". == 9", ". == null", "type == \"array\"",
+		"type == \"number\"", "(type == \"array\" or type == \"object\") and length > 1", ". == 0"}
+	cond := conds[r.Intn(len(conds))]
+	if d <= 0 {
+		switch r.Intn(5) {
+		case 0:
+			return nbody{"empty", "empty"}
+		case 1:
+			return nbody{".", "."}
+		default:
+			t := "if " + cond + " then empty else . end"
+			return nbody{t, t}
+		}
+	}
+	qs := []string{".[]?", ".[0]?", ".[1]?", ".a?", ".[]", ".[1:]?", ".b?", ".[-1]?", "(.[]? | select(type == \"number\"))", ".[]?[]?"}
+	q := qs[r.Intn(len(qs))]
+	in := g.nestedBody(d - 1)
+	switch r.Intn(6) {
+	case 0, 1:
+		return nbody{"(" + q + " |= (" + in.impl + "))", "_mref(" + q + "; (" + in.ref + "))"}
+	case 2:
+		return nbody{"del(" + q + ")", "_dref([path(" + q + ")])"}
+	case 3:
+		return nbody{"(map_values(" + in.impl + ")?)", "(_mref(.[]; (" + in.ref + "))?)"}
+	case 4:
+		return nbody{"(if " + cond + " then empty else (" + in.impl + ") end)", "(if " + cond + " then empty else (" + in.ref + ") end)"}
+	default:
+		q2 := qs[r.Intn(len(qs))]
+		return nbody{"(" + q + " |= (" + in.impl + ") | " + q2 + " |= empty)",
+			"(_mref(" + q + "; (" + in.ref + ")) | _mref(" + q2 + "; empty))"}
+	}
+}
+
+func nestedCase(op, p string, b nbody, input string) *Case {
+	c := eqCase(op, "", p+" |= ("+b.impl+")", "_mref("+p+"; ("+b.ref+"))", input)
+	c.P, c.ScalarF = p, false
+	return c
+}
+
+// systematic: an outer update that deletes `no` entries and, on another entry, runs an inner update that
+// deletes `ni` entries (1..10 each: below and above any small preallocated capacity), in both orders and
+// interleaved, on arrays and on objects, depth 2 and 3
+func nestedCases() []*Case {
+	var cs []*Case
+	rowArr := func(ni int) string {
+		xs := []string{"1"}
+		for i := 0; i < ni; i++ {
+			xs = append(xs, "9")
+		}
+		xs = append(xs, "5")
+		return "[" + strings.Join(xs, ",") + "]"
+	}
+	rowObj := func(ni int) string {
+		xs := []string{`"x":1`}
+		for i := 0; i < ni; i++ {
+			xs = append(xs, fmt.Sprintf(`"k%02d":9`, i))
+		}
+		xs = append(xs, `"z":5`)
+		return "{" + strings.Join(xs, ",") + "}"
+	}
+	inner := nbody{"(.[] |= (if . == 9 then empty else . end))", "_mref(.[]; (if . == 9 then empty else . end))"}
+	bodyA := nbody{"if .[0] == 0 then empty else " + inner.impl + " end", "if .[0] == 0 then empty else " + inner.ref + " end"}
+	bodyO := nbody{"if .x == 0 then empty else " + inner.impl + " end", "if .x == 0 then empty else " + inner.ref + " end"}
+	for no := 1; no <= 10; no++ {
+		for ni := 1; ni <= 10; ni++ {
+			for order := 0; order < 3; order++ {
+				var rowsA, rowsO []string
+				dead := func(k int) {
+					for i := 0; i < k; i++ {
+						rowsA = append(rowsA, "[0]")
+						rowsO = append(rowsO, `{"x":0}`)
+					}
+				}
+				live := func() { rowsA = append(rowsA, rowArr(ni)); rowsO = append(rowsO, rowObj(ni)) }
+				switch order {
+				case 0:
+					dead(no)
+					live()
+				case 1:
+					live()
+					dead(no)
+				default:
+					dead(no / 2)
+					live()
+					dead(no - no/2)
+					live()
+				}
+				cs = append(cs, nestedCase("modify-nested", ".[]", bodyA, "["+strings.Join(rowsA, ",")+"]"))
+				var kv []string
+				for i, ro := range rowsO {
+					kv = append(kv, fmt.Sprintf(`"r%02d":%s`, i, ro))
+				}
+				cs = append(cs, nestedCase("modify-nested", ".[]", bodyO, "{"+strings.Join(kv, ",")+"}"))
+				if ni <= 3 || no%3 == 0 {
+					// depth 3: the same structure one level down
+					b3 := nbody{"(.[] |= (" + bodyA.impl + "))", "_mref(.[]; (" + bodyA.ref + "))"}
+					outer := nbody{"if length == 0 then empty else " + b3.impl + " end", "if length == 0 then empty else " + b3.ref + " end"}
+					cs = append(cs, nestedCase("modify-nested", ".[]", outer, "[[],["+strings.Join(rowsA, ",")+"],[],["+strings.Join(rowsA, ",")+"]]"))
+				}
+			}
+		}
+	}
+	// map_values and del as the nested operation
+	for ni := 1; ni <= 10; ni++ {
+		in := "[[0],[0]," + rowArr(ni) + ",[0]," + rowArr(ni) + "]"
+		cs = append(cs,
+			nestedCase("modify-nested", ".[]", nbody{"if .[0] == 0 then empty else map_values(if . == 9 then empty else . end) end",
+				"if .[0] == 0 then empty else _mref(.[]; (if . == 9 then empty else . end)) end"}, in),
+			nestedCase("modify-nested", ".[]", nbody{"if .[0] == 0 then empty else del(.[] | select(. == 9)) end",
+				"if .[0] == 0 then empty else _dref([path(.[] | select(. == 9))]) end"}, in))
+		c := eqCase("map_values", "", "map_values(if .[0] == 0 then empty else (.[] |= (if . == 9 then empty else . end)) end)",
+			"_mref(.[]; (if .[0] == 0 then empty else _mref(.[]; (if . == 9 then empty else . end)) end))", in)
+		cs = append(cs, c)
+	}
+	return cs
+}
+
+// ---- regression cases for what was repaired or seeded before: run first, deterministic ----
+func regressionCases() []*Case {
+	var cs []*Case
+	mod := func(p, f, ref, input string) {
+		c := eqCase("regression", "", p+" |= ("+f+")", "_mref("+p+"; ("+ref+"))", input)
+		cs = append(cs, c)
+	}
+	eq := func(l, r, input string) { cs = append(cs, eqCase("regression", "", l, r, input)) }
+	// D4 (8b3b8e6): two-index reslice grew over the parent's next cell
+	mod("(.[2],.[0:1][1])", "7", "7", "[1,2,3]")
+	mod("(.[0],.[0:2][3])", "7", "7", "[1,2,3,4]")
+	eq("(.[2],.[0:1][1]) = 7", "7 as $x | _aref((.[2],.[0:1][1]); $x)", "[1,2,3]")
+	// D6 (96ad5a7): deleteEmpty sweeps only what delpaths copied
+	eq("del(.a.q)", "_dref([path(.a.q)])", `{"a":{"q":1},"b":{"c":[1],"d":{"e":2}}}`)
+	eq("del(.b.c[0], .a)", "_dref([path(.b.c[0], .a)])", `{"a":{"q":1},"b":{"c":[1],"d":{"e":2}}}`)
+	// a deleted slice that reaches the end, then a negative index (seeded C02-2)
+	eq("del(.[2:], .[-1])", "_dref([path(.[2:], .[-1])])", "[0,1,2,3]")
+	mod("(.[2:], .[-1])", "empty", "empty", "[0,1,2,3]")
+	eq("delpaths([[{\"start\":2,\"end\":null}],[-1]])", "_dref([[{\"start\":2,\"end\":null}],[-1]])", "[0,1,2,3]")
+	// fractional slice bounds are rounded alike when read and when written (seeded C02-r2)
+	eq("(.[-1.5:] |= .)", ".", "[1,2,3]")
+	eq("(.[-1.5:] |= map(. * 10))", ". as $v | ([range(0; length)] | .[-1.5:]) as $idx | reduce $idx[] as $i ($v; setpath([$i]; getpath([$i]) * 10))", "[1,2,3]")
+	eq("setpath([{\"start\":-1.5,\"end\":null}]; [\"x\"]) | getpath([{\"start\":-1.5,\"end\":null}])", "[\"x\"]", "[1,2,3]")
+	eq("del(.[-1.5:]) | length", "length - (.[-1.5:] | length)", "[1,2,3]")
+	// limit(..) as a path expression (seeded C02-r3a)
+	cs = append(cs, &Case{Kind: "path", Q: []string{"limit(2; .[])"}, Input: "[1,2,3]", Op: "regression"},
+		&Case{Kind: "path", Q: []string{"limit(1; .., .[0])"}, Input: "[[1],2]", Op: "regression"})
+	mod("limit(2; .[])", ". + 1", ". + 1", "[1,2,3]")
+	// an update nested in an update, both deleting (seeded C02-r3b)
+	mod(".[]", "if .[0] == 1 then empty else (.[1] |= empty) end", "if .[0] == 1 then empty else _mref(.[1]; empty) end", "[[1],[2,5],[3]]")
 	return cs
 }
